@@ -163,3 +163,410 @@ def c01_program(rng, lsb0=False, huge=0.0):
         else:
             calls.append({'op': 'lenprop', 't': 'a'})
     return {'calls': calls}
+
+
+# ---------------------------------------------------------------------------
+# helpers for operands related to the target (same length, sub-patterns, self)
+
+def related_operand(rng, tbits, oid='a', allow_self=True):
+    """An operand likely to be interesting for the target content."""
+    n = len(tbits)
+    r = rng.random()
+    if allow_self and r < 0.08:
+        return ref(oid)
+    if r < 0.35 and n:
+        # a sub-sequence of the target (so that searches hit)
+        a = rng.randrange(n)
+        b = min(n, a + rng.choice([1, 2, 3, 4, 7, 8, 9, 16, 17]))
+        bits = tbits[a:b]
+        return lit(lit_kind_for(rng, bits), bits)
+    if r < 0.55:
+        bits = rand_bits(rng, n)          # same length (for bit-wise operators)
+        return lit(lit_kind_for(rng, bits), bits)
+    if r < 0.62:
+        return lit(lit_kind_for(rng, []), [])
+    return rand_operand(rng, rng.choice([1, 1, 2, 3, 4, 5, 7, 8, 9, 12, 16, 24]))
+
+
+def opt_ba(rng):
+    return rng.choice([NONE_I, NONE_I, 0, 1])
+
+
+def rand_window(rng, n):
+    r = rng.random()
+    if r < 0.3:
+        return NONE_I, NONE_I
+    a = rand_opt_index(rng, n, 0.3)
+    b = rand_opt_index(rng, n, 0.3)
+    if r < 0.8 and a != NONE_I and b != NONE_I:
+        # make most windows valid
+        na = a + n if a < 0 else a
+        nb = b + n if b < 0 else b
+        if na > nb:
+            a, b = b, a
+    return a, b
+
+
+def mutator_call(rng, tbits, cls, oid='a', wide=True):
+    """One random mutating call for a target whose current content is (believed to be) tbits."""
+    n = len(tbits)
+    ops = ['append', 'prepend', 'iadd', 'insert', 'overwrite', 'delitem', 'delslice', 'setitem', 'setslice',
+           'replace', 'reverse', 'rol', 'ror', 'set', 'invert', 'byteswap', 'ilshift', 'irshift', 'imul',
+           'iand', 'ior', 'ixor', 'clear']
+    weights = [3, 3, 3, 4, 4, 3, 4, 4, 6, 5, 3, 3, 3, 5, 4, 5, 2, 2, 1, 2, 2, 2, 1]
+    opn = rng.choices(ops, weights)[0]
+    c = {'op': opn, 't': oid}
+    if opn in ('append', 'prepend', 'iadd'):
+        c['xs'] = [related_operand(rng, tbits, oid)]
+    elif opn in ('insert', 'overwrite'):
+        c['xs'] = [related_operand(rng, tbits, oid)]
+        p = rand_index(rng, n)
+        if cls in STREAMS and rng.random() < 0.25:
+            p = NONE_I
+        c['ia'] = [p]
+    elif opn == 'delitem':
+        c['ia'] = [rand_index(rng, n)]
+    elif opn == 'delslice':
+        c['ia'] = [rand_opt_index(rng, n), rand_opt_index(rng, n), rand_step(rng, n)]
+    elif opn == 'setitem':
+        c['ia'] = [rand_index(rng, n)]
+        if rng.random() < 0.5:
+            c['va'] = [enc_int(rng.choice([0, 1, -1, 2, -2, 1, 0]))]
+        else:
+            c['xs'] = [rand_operand(rng, rng.choice([0, 1, 1, 1, 2, 3, 8]))]
+    elif opn == 'setslice':
+        a, b, st = rand_opt_index(rng, n), rand_opt_index(rng, n), rand_step(rng, n)
+        c['ia'] = [a, b, st]
+        r = rng.random()
+        if r < 0.35:
+            # integer value at / inside / outside the range limits of the slice width
+            w = len(list(range(n))[slice(None if a == NONE_I else a, None if b == NONE_I else b)]) if (st in (NONE_I, 1)) else 0
+            if w and rng.random() < 0.8:
+                cand = [0, 1, -1, (1 << w) - 1, 1 << w, -(1 << (w - 1)), -(1 << (w - 1)) - 1, (1 << (w - 1)) - 1,
+                        rng.getrandbits(w)]
+            else:
+                cand = [0, 1, -1, 2, 5, -3]
+            c['va'] = [enc_int(rng.choice(cand))]
+        elif r < 0.6 and st not in (NONE_I, 1, 0):
+            # a value of exactly the right size for the extended slice
+            k = len(range(*slice(None if a == NONE_I else a, None if b == NONE_I else b, st).indices(n)))
+            bits = rand_bits(rng, k)
+            c['xs'] = [lit(lit_kind_for(rng, bits), bits)]
+        else:
+            c['xs'] = [related_operand(rng, tbits, oid)]
+    elif opn == 'replace':
+        a, b = rand_window(rng, n)
+        old = related_operand(rng, tbits, oid, allow_self=False)
+        new = related_operand(rng, tbits, oid)
+        c['xs'] = [old, new]
+        c['ia'] = [a, b, rng.choice([NONE_I, NONE_I, 0, 1, 2, 3]), opt_ba(rng)]
+    elif opn == 'reverse':
+        a, b = rand_window(rng, n)
+        c['ia'] = [a, b]
+    elif opn in ('rol', 'ror'):
+        a, b = rand_window(rng, n)
+        c['ia'] = [rng.choice([0, 1, 2, 3, 7, 8, 9, n, n + 1, 2 * n + 3, -1, rng.randint(0, max(1, 3 * n))]), a, b]
+    elif opn == 'set':
+        v = rng.choice([0, 1, 1, True, False]) and 1
+        k = rng.random()
+        if k < 0.15:
+            c['sa'] = ['none']
+            c['ia'] = [int(v)]
+        elif k < 0.45:
+            c['sa'] = ['int']
+            c['ia'] = [int(v), rand_index(rng, n)]
+        elif k < 0.75:
+            c['sa'] = [rng.choice(['list', 'tuple', 'iter'])]
+            c['ia'] = [int(v)] + [rand_index(rng, n) if rng.random() < 0.25 else rng.randint(-n, n - 1) if n else 0
+                                  for _ in range(rng.randint(0, 6))]
+        else:
+            c['sa'] = ['range']
+            a = rng.randint(-n - 1, n + 1)
+            b = rng.randint(-n - 1, n + 2)
+            c['ia'] = [int(v), a, b, rng.choice([1, 1, 2, 3, -1, -2, 8])]
+    elif opn == 'invert':
+        k = rng.random()
+        if k < 0.2:
+            c['sa'] = ['none']
+            c['ia'] = []
+        elif k < 0.55:
+            c['sa'] = ['int']
+            c['ia'] = [rand_index(rng, n)]
+        else:
+            c['sa'] = [rng.choice(['list', 'tuple', 'iter'])]
+            c['ia'] = [rand_index(rng, n) if rng.random() < 0.25 else rng.randint(-n, n - 1) if n else 0
+                       for _ in range(rng.randint(0, 6))]
+    elif opn == 'byteswap':
+        a, b = rand_window(rng, n)
+        if rng.random() < 0.5 and n >= 8:
+            # byte aligned windows are the interesting ones
+            a = 8 * rng.randint(0, n // 8) if rng.random() < 0.7 else a
+        k = rng.random()
+        rep = rng.choice([NONE_I, 0, 1])
+        if k < 0.2:
+            c['sa'] = ['none']
+            c['ia'] = [a, b, rep]
+        elif k < 0.5:
+            c['sa'] = ['int']
+            c['ia'] = [a, b, rep, rng.choice([0, 1, 2, 3, 4, 8, -1])]
+        elif k < 0.75:
+            c['sa'] = ['list']
+            c['ia'] = [a, b, rep] + [rng.choice([0, 1, 2, 3, 4]) for _ in range(rng.randint(0, 4))]
+        else:
+            codes = 'bBhHlLiIqQefd'
+            size = {'b': 1, 'B': 1, 'h': 2, 'H': 2, 'l': 4, 'L': 4, 'i': 4, 'I': 4, 'q': 8, 'Q': 8, 'e': 2, 'f': 4, 'd': 8}
+            fmt = rng.choice(['', '<', '>', '=', '@'])
+            sizes = []
+            for _ in range(rng.randint(1, 3)):
+                ch = rng.choice(codes)
+                cnt = rng.choice([None, None, 1, 2, 3])
+                fmt += (str(cnt) if cnt else '') + ch
+                sizes += [size[ch]] * (cnt or 1)
+            c['sa'] = ['str', fmt]
+            c['ia'] = [a, b, rep] + sizes
+    elif opn in ('ilshift', 'irshift'):
+        c['ia'] = [rng.choice([0, 1, 2, 7, 8, 9, n - 1, n, n + 1, -1, 64])]
+    elif opn == 'imul':
+        k = rng.choice([0, 1, 2, 3, -1, 5])
+        if n * max(k, 0) > 30000:
+            k = 1
+        c['ia'] = [k]
+    elif opn in ('iand', 'ior', 'ixor'):
+        if rng.random() < 0.85:
+            bits = rand_bits(rng, n)
+            c['xs'] = [lit(lit_kind_for(rng, bits), bits)] if rng.random() < 0.9 else [ref(oid)]
+        else:
+            c['xs'] = [rand_operand(rng, rng.choice([0, 1, n + 1, max(n - 1, 0)]))]
+    return c
+
+
+def c03_program(rng, lsb0=False, huge=0.0, cls=None):
+    cls = cls or rng.choice(MUTABLE)
+    n = rand_len(rng, huge=huge)
+    bits = rand_bits(rng, n)
+    calls = []
+    if lsb0:
+        calls.append(setopt('lsb0', 1))
+    if rng.random() < 0.15:
+        calls.append(setopt('ba', 1))
+    calls.append(rand_mk(rng, 'a', cls=cls, bits=bits))
+    for _ in range(rng.randint(3, 9)):
+        # the generator does not track the content exactly; operands related to the
+        # *initial* content are still good candidates
+        calls.append(mutator_call(rng, bits, cls))
+    return {'calls': calls}
+
+
+def stream_call(rng, tbits, cls, oid='a'):
+    n = len(tbits)
+    r = rng.random()
+    c = {'t': oid}
+    if r < 0.14:
+        c.update(op='setpos', sa=[rng.choice(['pos', 'pos', 'bitpos'])], ia=[rand_index(rng, n)])
+    elif r < 0.18:
+        c.update(op='setpos', sa=['bytepos'], ia=[rng.randint(-1, n // 8 + 1)])
+    elif r < 0.26:
+        c.update(op='getpos', sa=[rng.choice(['pos', 'bitpos', 'bytepos'])])
+    elif r < 0.32:
+        c.update(op='bytealign')
+    elif r < 0.48:
+        c.update(op=rng.choice(['readbits', 'readbits', 'peekbits']),
+                 ia=[rng.choice([0, 1, 2, 3, 7, 8, 9, 16, n, n + 1, -1, rng.randint(0, max(n, 1))])])
+    elif r < 0.58:
+        c.update(op=rng.choice(['readlistbits', 'peeklistbits']),
+                 ia=[rng.choice([0, 1, 2, 3, 8]) for _ in range(rng.randint(0, 4))])
+    elif r < 0.66:
+        c.update(op='readto', xs=[related_operand(rng, tbits, oid, allow_self=False)], ia=[opt_ba(rng)])
+    elif r < 0.8:
+        a, b = rand_window(rng, n)
+        c.update(op=rng.choice(['find', 'rfind']), xs=[related_operand(rng, tbits, oid, allow_self=False)],
+                 ia=[a, b, opt_ba(rng)])
+    elif r < 0.84:
+        c.update(op=rng.choice(['copy_m', 'copy_c']))
+    elif r < 0.88:
+        c.update(op='getslice', ia=[rand_opt_index(rng, n), rand_opt_index(rng, n), rand_step(rng, n)])
+    elif r < 0.91:
+        c.update(op=rng.choice(['add', 'and', 'or', 'xor']), xs=[lit('bin', rand_bits(rng, n))])
+    elif r < 0.94:
+        c.update(op=rng.choice(['eq', 'ne']), xs=[lit('bin', list(tbits))])
+    elif cls in MUTABLE:
+        return mutator_call(rng, tbits, cls, oid)
+    else:
+        c.update(op='len')
+    return c
+
+
+def c06_program(rng, lsb0=False, huge=0.0):
+    cls = rng.choice(STREAMS + ['BitStream'])
+    n = rand_len(rng, huge=huge)
+    bits = rand_bits(rng, n)
+    calls = []
+    if lsb0:
+        calls.append(setopt('lsb0', 1))
+    calls.append(rand_mk(rng, 'a', cls=cls, bits=bits))
+    for _ in range(rng.randint(4, 12)):
+        if cls == 'BitStream' and rng.random() < 0.35:
+            calls.append(mutator_call(rng, bits, cls))
+        else:
+            calls.append(stream_call(rng, bits, cls))
+    return {'calls': calls}
+
+
+def search_data(rng, huge=0.0):
+    """data with planted occurrences of a pattern (aligned and unaligned, overlapping)"""
+    r = rng.random()
+    plen = rng.choice([1, 2, 3, 4, 5, 7, 8, 8, 9, 12, 15, 16, 16, 17, 24, 32])
+    pat = rand_bits(rng, plen)
+    if r < huge:
+        n = rng.choice([8192, 8200, 9000, 16384, 16500, 20000])
+    elif r < 0.3:
+        n = rng.choice([0, 1, 7, 8, 9, 15, 16, 17, 24, 31, 32, 33, 40, 64])
+    else:
+        n = rng.randint(0, 300)
+    style = rng.random()
+    if style < 0.25:
+        data = [0] * n
+    elif style < 0.35:
+        data = [1] * n
+    elif style < 0.55 and plen:
+        data = [pat[i % plen] for i in range(n)]     # periodic: overlapping matches everywhere
+    else:
+        data = rand_bits(rng, n)
+    for _ in range(rng.randint(0, 5)):
+        if n >= plen:
+            pos = rng.randrange(n - plen + 1)
+            if rng.random() < 0.5:
+                pos -= pos % 8
+            data[pos:pos + plen] = pat
+    return data, pat
+
+
+def c07_program(rng, lsb0=False, huge=0.0):
+    data, pat = search_data(rng, huge)
+    n = len(data)
+    cls = rng.choice(CLASSES)
+    calls = []
+    if lsb0:
+        calls.append(setopt('lsb0', 1))
+    if rng.random() < 0.35:
+        calls.append(setopt('ba', 1, rng.choice(['options', 'module'])))
+    calls.append(rand_mk(rng, 'a', cls=cls, bits=data))
+    for _ in range(rng.randint(3, 8)):
+        r = rng.random()
+        if r < 0.7:
+            p = pat
+        elif r < 0.8:
+            p = []
+        else:
+            p = rand_bits(rng, rng.choice([1, 2, 3, 8, 9, 16]))
+        x = lit(lit_kind_for(rng, p), p)
+        a, b = rand_window(rng, n)
+        k = rng.random()
+        if k < 0.2:
+            calls.append({'op': 'find', 't': 'a', 'xs': [x], 'ia': [a, b, opt_ba(rng)]})
+        elif k < 0.38:
+            calls.append({'op': 'rfind', 't': 'a', 'xs': [x], 'ia': [a, b, opt_ba(rng)]})
+        elif k < 0.56:
+            calls.append({'op': 'findall', 't': 'a', 'xs': [x],
+                          'ia': [a, b, rng.choice([NONE_I, NONE_I, 0, 1, 2, 5, -1]), opt_ba(rng)]})
+        elif k < 0.62:
+            calls.append({'op': 'contains', 't': 'a', 'xs': [x]})
+        elif k < 0.7:
+            calls.append({'op': rng.choice(['startswith', 'endswith']), 't': 'a', 'xs': [x], 'ia': [a, b]})
+        elif k < 0.74:
+            calls.append({'op': 'count', 't': 'a', 'ia': [rng.choice([0, 1, 2, -1])]})
+        elif k < 0.82:
+            calls.append({'op': 'cut', 't': 'a',
+                          'ia': [rng.choice([1, 2, 3, 7, 8, 9, 16, 64, 0, -1, max(n, 1)]), a, b,
+                                 rng.choice([NONE_I, NONE_I, 0, 1, 3, -1])]})
+        elif k < 0.92:
+            calls.append({'op': 'split', 't': 'a', 'xs': [x],
+                          'ia': [a, b, rng.choice([NONE_I, NONE_I, 0, 1, 2, 3, -1]), opt_ba(rng)]})
+        elif cls in MUTABLE:
+            new = rand_bits(rng, rng.choice([0, 1, len(p), len(p) + 1, 8]))
+            calls.append({'op': 'replace', 't': 'a', 'xs': [x, lit(lit_kind_for(rng, new), new)],
+                          'ia': [a, b, rng.choice([NONE_I, NONE_I, 0, 1, 2]), opt_ba(rng)]})
+            calls.append(rand_mk(rng, 'a', cls=cls, bits=data))
+        else:
+            calls.append({'op': 'contains', 't': 'a', 'xs': [x]})
+    return {'calls': calls}
+
+
+def c16_program(rng, lsb0=False):
+    n = rng.choice([0, 1, 2, 7, 8, 9, 31, 32, 33, 63, 64, 65, 127, 128, 129, 1023, 1024, 1025, rng.randint(0, 100)])
+    bits = rand_bits(rng, n)
+    cls = rng.choice(CLASSES)
+    calls = []
+    if lsb0:
+        calls.append(setopt('lsb0', 1))
+    calls.append(rand_mk(rng, 'a', cls=cls, bits=bits))
+    for _ in range(rng.randint(4, 9)):
+        r = rng.random()
+        if r < 0.1:
+            calls.append({'op': 'inv', 't': 'a'})
+        elif r < 0.55:
+            opn = rng.choice(['and', 'or', 'xor', 'rand', 'ror_', 'rxor', 'iand', 'ior', 'ixor'])
+            k = rng.random()
+            if k < 0.1:
+                x = ref('a')
+            elif k < 0.85:
+                w = rand_bits(rng, n)
+                kind = lit_kind_for(rng, w)
+                if opn in ('rand', 'ror_', 'rxor') and kind == 'bitarray':
+                    kind = 'bools'
+                x = lit(kind, w)
+            else:
+                x = rand_operand(rng, rng.choice([0, 1, n + 1, max(0, n - 1), 8]))
+            if x['k'] == 'obj' and opn in ('rand', 'ror_', 'rxor'):
+                opn = opn[1:].rstrip('_')
+            calls.append({'op': opn, 't': 'a', 'xs': [x]})
+        else:
+            opn = rng.choice(['lshift', 'rshift', 'ilshift', 'irshift'])
+            calls.append({'op': opn, 't': 'a',
+                          'ia': [rng.choice([0, 1, 2, 7, 8, 9, 63, 64, 65, n - 1, n, n + 1, 2 * n + 1, -1, -5])]})
+    return {'calls': calls}
+
+
+def c13_program(rng):
+    n = rng.choice([0, 1, 7, 8, 9, 64, 100, 1999, 2000, 2001, 2005, 3600, 3601, 3607, 5000, rng.randint(0, 300)])
+    bits = rand_bits(rng, n)
+    calls = []
+    ids = []
+    # several objects with the same content, different classes / routes / positions
+    for i in range(rng.randint(2, 4)):
+        oid = 'o%d' % i
+        calls.append(rand_mk(rng, oid, bits=bits))
+        ids.append((oid, calls[-1]['sa'][0]))
+    # one that differs: in the unsampled middle for long strings, or in length
+    other = list(bits)
+    k = rng.random()
+    if n and k < 0.5:
+        pos = n // 2 if n > 2000 else rng.randrange(n)
+        other[pos] ^= 1
+    elif k < 0.75:
+        other = other + [0]
+    elif n:
+        other = other[:-1]
+    calls.append(rand_mk(rng, 'd', bits=other))
+    ids.append(('d', calls[-1]['sa'][0]))
+    for _ in range(rng.randint(5, 12)):
+        (t, tc), (x, xc) = rng.choice(ids), rng.choice(ids)
+        r = rng.random()
+        if r < 0.3:
+            calls.append({'op': rng.choice(['eq', 'ne']), 't': t, 'xs': [ref(x)]})
+        elif r < 0.45:
+            b2 = bits if rng.random() < 0.6 else other
+            calls.append({'op': rng.choice(['eq', 'ne']), 't': t, 'xs': [lit(lit_kind_for(rng, b2), b2)]})
+        elif r < 0.55:
+            calls.append({'op': 'eq_py', 't': t, 'sa': [rng.choice(['int', 'float', 'none', 'object', 'zero'])],
+                          'ia': [rng.randint(0, 1)]})
+        elif r < 0.6:
+            calls.append({'op': 'hashable', 't': t})
+        elif tc in ('Bits', 'ConstBitStream') and xc in ('Bits', 'ConstBitStream'):
+            calls.append({'op': rng.choice(['hasheq', 'inset']), 't': t, 'xs': [ref(x)]})
+        elif tc in ('Bits', 'ConstBitStream'):
+            b2 = bits if rng.random() < 0.7 else other
+            calls.append({'op': rng.choice(['hasheq', 'inset']), 't': t, 'xs': [lit(lit_kind_for(rng, b2), b2)]})
+        else:
+            calls.append({'op': 'hasheq', 't': t, 'xs': [ref(x)]})
+    return {'calls': calls}
